@@ -33,6 +33,7 @@ fn londiff(a: f64, b: f64) -> f64 {
 /// Judge one ordered pair. `truth` = true position of the second report, if the pair was encoded from one.
 fn judge_pair(col: &mut Collector, first: Cpr, second: Cpr, truth: Option<(f64, f64)>, tag: &str) {
     col.count("pairs_judged", 1);
+    col.seen_hash((u64::from(first.yz) << 47) ^ (u64::from(first.xz) << 30) ^ (u64::from(second.yz) << 13) ^ u64::from(second.xz) ^ (u64::from(first.odd) << 63) ^ (u64::from(second.odd) << 62));
     let a = alt(first);
     let b = alt(second);
     let got = match mon::guarded(|| rcpr::get_position((&a, &b))) {
@@ -256,10 +257,10 @@ pub fn run(ctx: &Ctx) -> i32 {
     col.sample(json!({"pair": "odd (74158, 50194) then even (93000, 51372)", "reference": format!("{:?}", cpr::decode_global(Cpr { odd: true, yz: 74158, xz: 50194 }, Cpr { odd: false, yz: 93000, xz: 51372 }))}));
     col.sample(json!({"truth": [87.0, 10.0], "even": format!("{:?}", cpr::encode(87.0, 10.0, false)), "odd": format!("{:?}", cpr::encode(87.0, 10.0, true))}));
     let evals = col.counters.get("pairs_judged").copied().unwrap_or(0);
-    let distinct = col.classes.len() as u64;
+    let distinct = col.distinct.len() as u64;
     let info = ctx.info(
         "exploration",
-        "ordered CPR pairs judged against the reference decoder: (a) every reachable zone latitude of both parities as true latitude (exhaustive in thorough, stride 16 in quick) x NL-sensitive longitudes x both orders, (b) +-64..400 reachable latitudes around each of the 58 NL transitions x parity x hemisphere, with and without <=3 NM displacement, (c) area-uniform random truths with displacement + dense polar/equator/antimeridian regions, (d) random and edge raw quadruples incl. equal parity. distinct_nontrivial = number of distinct (reference outcome, region, NL) cells observed",
+        "ordered CPR pairs judged against the reference decoder: (a) every reachable zone latitude of both parities as true latitude (exhaustive in thorough, stride 16 in quick) x NL-sensitive longitudes x both orders, (b) +-64..400 reachable latitudes around each of the 58 NL transitions x parity x hemisphere, with and without <=3 NM displacement, (c) area-uniform random truths with displacement + dense polar/equator/antimeridian regions, (d) random and edge raw quadruples incl. equal parity. distinct_nontrivial = distinct ordered pairs (hash of the six values; exact up to 4M, then a lower bound); classes = distinct (reference outcome, region, NL) cells observed",
         &["NL from the closed formula with the explicit clause NL(+-87 deg)=2", "pairs whose latitude is within 1e-7 NL units of a transition are skipped as ambiguous (counted)"],
         100_000,
     );
